@@ -123,6 +123,23 @@ theorem hijack_failure_rejected (u : UCfg) (r : Req) (rh : RespHdr) (oh : Option
   have := (upgrade_iff u r rh oh hj).mp ⟨a, h⟩
   simp [hf] at this
 
+/-- error precedence (what the status of a request with several faults names): with the `upgrade` token
+    in Connection and no `websocket` token in Upgrade the answer is 426, whatever else is wrong with
+    the request (method, version, key, origin, hijack) -/
+theorem missing_upgrade_token_is_426 (u : UCfg) (r : Req) (rh : RespHdr) (oh : Option Bytes) (hj : Hijack)
+    (hc : tokenListContainsValue (r.values "Connection") (strBytes "upgrade") = true)
+    (hu : tokenListContainsValue (r.values "Upgrade") (strBytes "websocket") = false) :
+    upgrade u r rh oh hj = .error .noUpgradeWebsocket ∧ Reject.noUpgradeWebsocket.status = 426 := by
+  unfold upgrade
+  simp [hc, hu, Reject.status]
+
+/-- … and without the `upgrade` token in Connection it is 400, whatever else is wrong -/
+theorem missing_connection_token_is_400 (u : UCfg) (r : Req) (rh : RespHdr) (oh : Option Bytes) (hj : Hijack)
+    (hc : tokenListContainsValue (r.values "Connection") (strBytes "upgrade") = false) :
+    upgrade u r rh oh hj = .error .noConnectionUpgrade ∧ Reject.noConnectionUpgrade.status = 400 := by
+  unfold upgrade
+  simp [hc, Reject.status]
+
 /-! ### non-vacuity -/
 section NonVacuity
 set_option linter.defProp false
@@ -319,6 +336,10 @@ example : upgrade witU witReqCross none (some (strBytes "evil.example.org")) { w
 /-- hijack_failure_rejected on the good request -/
 example : ∀ a, upgrade witU witReq none witOh { witHj with ok := false } ≠ .ok a :=
   hijack_failure_rejected _ _ _ _ _ rfl
+
+/-- missing_upgrade_token_is_426 on the h2c request with a POST method on top (two faults) -/
+example : upgrade witU { witReqH2c with method := strBytes "POST" } none none witHj = .error .noUpgradeWebsocket :=
+  (missing_upgrade_token_is_426 _ _ _ _ _ (by decide +kernel) (by decide +kernel)).1
 
 end NonVacuity
 
